@@ -63,5 +63,17 @@ t = [t for t in m if "open" in t["events"] and t["events"].count("v") >= 2][0]
 i = t["events"].index("open")
 t["events"].insert(i - 1, t["events"].pop(i))       # the destination opened one validation point too early
 show("Dump", v0, verdicts("Trace_Dump", "Trace_Dump.cfg", m, {}), "moving open before the last validation point")
+# --- Rpms builder
+from harness import rpms_traces  # noqa: E402
+trs, consts = rpms_traces.prepare(T.run_driver("rpms", 0, 30).get("rpms", []))
+trs = trs[:40]
+v0 = verdicts("Trace_Rpms", "Trace_Rpms.cfg", trs, consts)
+for what, fn in (("adding one to the logged entry count", lambda e: e.__setitem__("n", e["n"] + 1)),
+                 ("logging the signing key as stored in upper case", lambda e: e.__setitem__("stored_sig", "F5282EE4")),
+                 ("logging a source tree architecture for an accepted add", lambda e: e.__setitem__("a", "src"))):
+    m = copy.deepcopy(trs)
+    t = [t for t in m if any(e["op"] == "add" and e["out"] == "ok" for e in t["events"])][0]
+    fn([e for e in t["events"] if e["op"] == "add" and e["out"] == "ok"][0])
+    show("Rpms", v0, verdicts("Trace_Rpms", "Trace_Rpms.cfg", m, consts), what)
 print("BINDING-DEMO %s" % ("ok" if ok else "FAILED"))
 sys.exit(0 if ok else 1)
